@@ -63,6 +63,12 @@ CLAIMED["C17"] = dict(
     note="Trusted: the reference precedence model (scoped beats shared; toml < cli < attribute) and the canonical --config base case.",
     ref="DESIGN.md §2 C17")
 
+CLAIMED["C11"] = dict(
+    engine="P", technique="differential property testing over generated enums: rustc (through the real proc macro) as ground truth vs executed C / C++ / JS bindings and parsed Dart / Kotlin / nanobind tables",
+    text="Generated enums with arbitrary i32 discriminant patterns: every binding's numeric value per variant must equal rustc's, and the value-to-variant direction must select the same name (C++ FromFFI executed, JS constructor and a call through an identity wasm stub executed, Dart/Kotlin from-Rust expressions parsed and positional forms accepted only for 0..n-1 enums). Exploration.",
+    note="Trusted: rustc's `as isize`; gcc/g++/node executing the generated code; the Dart/Kotlin/nanobind text parsers (Dart, Kotlin and Python bindings are not executed here).",
+    ref="DESIGN.md §2 C11")
+
 TODO_REASON = "check not built yet in this revision of /verif (planned, see DESIGN.md §2); not claimed until it is silent on the unchanged tree and kills its mutants"
 
 ALL = ["C%02d" % i for i in range(1, 18)]
